@@ -65,7 +65,7 @@ type stormResult struct {
 	Stray    []string // frames on streams the client never used
 	Attempts map[string][]*fakecass.Attempt
 	Clients  []*rawcli.Client
-	Closed   []bool // client connection was closed by the proxy
+	Closed   []bool       // client connection was closed by the proxy
 	LiveConn map[int]bool // backend connections still open when the history was collected
 	Labels   []string
 }
@@ -93,6 +93,10 @@ func localFrame(v primitive.ProtocolVersion, stream int16, kind string, token st
 		return wire.Msg(v, false, stream, &message.Query{Query: "SELECT peer, data_center FROM system.peers", Options: opts}, "")
 	case "system_bad_column":
 		return wire.Msg(v, false, stream, &message.Query{Query: "SELECT nonexistent_column FROM system.local", Options: opts}, "")
+	case "system_json":
+		return wire.Msg(v, false, stream, &message.Query{Query: "SELECT JSON * FROM system.local WHERE key = '" + token + "'", Options: opts}, "")
+	case "system_func":
+		return wire.Msg(v, false, stream, &message.Query{Query: "SELECT writetime(key) FROM system.peers WHERE peer = '" + token + "'", Options: opts}, "")
 	case "use":
 		return wire.Msg(v, false, stream, &message.Query{Query: "USE ks1", Options: opts}, "")
 	case "use_missing":
